@@ -1,6 +1,18 @@
 (** C06/Proofs.v — the theorems of property C06 about the repository model. *)
 From HV Require Import Base.Prelude C06.Pat C06.Model C06.Spec C06.DbFacts C06.ReprFacts C06.RepoFacts C06.SpecFacts C06.StepFacts.
 
+Section Fx.
+Variable fx : fixes.   (* which repairs of C06 findings the code contains *)
+Notation step := (Model.step fx).
+Notation run_from := (Model.run_from fx).
+Notation run := (Model.run fx).
+Notation fresh := (Spec.fresh fx).
+Notation set_good := (SpecFacts.set_good fx).
+Notation Inv := (StepFacts.Inv fx).
+Notation SInv := (StepFacts.SInv fx).
+Notation no_guard := (no_guard_fx fx).
+Notation KInv := (RepoFacts.KInv fx).
+
 (** ** what the guards mean for one operation *)
 
 Definition step_ok (S : sets) (o : op) : bool :=
@@ -16,13 +28,6 @@ Fixpoint ok_from (S : sets) (ops : list op) : bool :=
   | o :: r => step_ok S o && ok_from (spec_step S o) r
   end.
 
-Section Fx.
-Variable fx : fixes.   (* which repairs of C06 findings the code contains; the proofs do not care *)
-Notation step := (Model.step fx).
-Notation run_from := (Model.run_from fx).
-Notation run := (Model.run fx).
-Notation fresh := (Spec.fresh fx).
-
 (** ** UpdateRuleSet *)
 
 Lemma update_sound st S s ds :
@@ -33,14 +38,14 @@ Lemma update_sound st S s ds :
 Proof.
   intros HI HR HS Hg.
   destruct (upd_del_phase fx st s ds HI Hg) as (d1 & Ed & R1 & F1).
-  unfold Model.step, gstep. cbv zeta. rewrite Ed, (upd_tba st s ds HI). split.
-  - intros A F. destruct (upd_accept st S s ds HI HR HS Hg d1 R1 F1 A) as (d2 & Ea & R2 & F2). rewrite Ea.
-    eexists. split; [reflexivity|]. rewrite (upd_known st s ds Hg). split.
-    + split; simpl; [apply (upd_KInv st S s ds HI HR HS Hg A) | exact R2 | exact F2].
+  unfold Model.step, gstep. cbv zeta. rewrite Ed, (upd_tba fx st s ds HI). split.
+  - intros A F. destruct (upd_accept fx st S s ds HI HR HS Hg d1 R1 F1 A) as (d2 & Ea & R2 & F2). rewrite Ea.
+    eexists. split; [reflexivity|]. rewrite (upd_known fx st s ds Hg). split.
+    + split; simpl; [apply (upd_KInv fx st S s ds HI HR HS Hg A) | exact R2 | exact F2].
     + split; simpl; [apply (upd_mem st S s ds HR) | apply (upd_ord st S s ds HR F)].
   - intro A.
     destruct (add_rules d1 (filter (fun n => negb (mem_rule n (filter (from_src s) (known st)))) (stamp s ds))) as [d2|e] eqn:Ea.
-    + rewrite (upd_complete st S s ds HI HR HS Hg d1 d2 R1 F1 Ea) in A. discriminate.
+    + rewrite (upd_complete fx st S s ds HI HR HS d1 d2 R1 F1 Ea) in A. discriminate.
     + exists e. reflexivity.
 Qed.
 
@@ -74,17 +79,17 @@ Lemma delete_sound st S s : Inv st -> Rel (known st) S -> SInv S ->
   exists st', step st (Delete s) = (st', None) /\ Inv st' /\ Rel (known st') (del_set S s) /\ SInv (del_set S s).
 Proof.
   intros HI HR HS.
-  destruct (del_rules_spec fx (known st) (from_src s) (index st) (i_k _ HI) (i_v _ HI) (i_f _ HI)) as (d' & Ed & R' & F').
+  destruct (del_rules_spec fx (known st) (from_src s) (index st) (i_k _ _ HI) (i_v _ _ HI) (i_f _ _ HI)) as (d' & Ed & R' & F').
   unfold Model.step, gstep. cbv zeta. rewrite Ed. eexists. split; [reflexivity|].
   assert (EK : filter (fun r => negb (mem_rule r (filter (from_src s) (known st)))) (known st) =
                filter (fun r => negb (from_src s r)) (known st)).
   { apply filter_ext_in. intros r Hr. f_equal. apply bool_eq_iff. rewrite mem_rule_in, filter_In. tauto. }
   rewrite EK. split; [|split].
-  - split; simpl; [apply KInv_filter; apply (i_k _ HI) | exact R' | exact F'].
+  - split; simpl; [apply KInv_filter; apply (i_k _ _ HI) | exact R' | exact F'].
   - split; simpl.
-    + intro r. rewrite filter_In, (get_del_set S s (r_src r) (s_nodup _ HS)), (r_mem _ _ HR r).
+    + intro r. rewrite filter_In, (get_del_set S s (r_src r) (s_nodup _ _ HS)), (r_mem _ _ HR r).
       unfold from_src. rewrite (Nat.eqb_sym s). destruct (Nat.eqb (r_src r) s); simpl; [split; [intros [_ H]; discriminate | tauto] | tauto].
-    + intros t q. rewrite (get_del_set S s t (s_nodup _ HS)), filter_filter.
+    + intros t q. rewrite (get_del_set S s t (s_nodup _ _ HS)), filter_filter.
       destruct (Nat.eqb s t) eqn:E.
       * apply Nat.eqb_eq in E. subst t. rewrite filter_all_false; [reflexivity|].
         intros r _. destruct (from_src s r); reflexivity.
@@ -92,9 +97,9 @@ Proof.
         destruct (Nat.eqb (r_src r) t) eqn:E2; [|apply andb_false_r].
         apply Nat.eqb_eq in E2. subst t. rewrite Nat.eqb_sym, E. reflexivity.
   - split.
-    + apply del_set_nodup. apply (s_nodup _ HS).
-    + intros t dt Ht. apply (s_good _ HS t dt). apply (del_set_in _ _ _ _ Ht).
-    + intros t u dt du p Ht Hu. apply (s_disj _ HS t u dt du p); eapply del_set_in; eassumption.
+    + apply del_set_nodup. apply (s_nodup _ _ HS).
+    + intros t dt Ht. apply (s_good _ _ HS t dt). apply (del_set_in _ _ _ _ Ht).
+    + intros t u dt du p Ht Hu. apply (s_disj _ _ HS t u dt du p); eapply del_set_in; eassumption.
 Qed.
 
 (** ** one operation *)
@@ -115,7 +120,7 @@ Proof.
     destruct (spec_accepts S s ds) eqn:A.
     - destruct (Acc eq_refl (Hf eq_refl)) as (st' & E & I' & R').
       exists st', None. split; [exact E|]. split; [tauto|]. split; [congruence|].
-      split; [exact I'|]. split; [exact R'|]. apply (upd_SInv S s ds HS Hg A).
+      split; [exact I'|]. split; [exact R'|]. apply (upd_SInv fx S s ds HS Hg A).
     - destruct (Rej eq_refl) as (e & E). exists st, (Some e). split; [exact E|].
       split; [split; discriminate|]. tauto. }
   destruct o as [s ds|s ds|s]; simpl in Hok; unfold spec_ok, spec_step.
@@ -157,17 +162,17 @@ Proof.
   induction S as [|[s ds] S IH]; intros S0 HS; simpl.
   - rewrite app_nil_r. tauto.
   - assert (Hin : In (s, ds) (S0 ++ (s, ds) :: S)) by (apply in_app_iff; right; left; reflexivity).
-    destruct (s_good _ HS s ds Hin) as [Hg Hv].
-    pose proof (s_nodup _ HS) as ND. rewrite map_app in ND. simpl in ND.
+    destruct (s_good _ _ HS s ds Hin) as (Hg & Hv & Hk).
+    pose proof (s_nodup _ _ HS) as ND. rewrite map_app in ND. simpl in ND.
     assert (Hn : has_set S0 s = false).
     { destruct (has_set S0 s) eqn:E; [|reflexivity]. apply has_set_in in E. exfalso.
       apply NoDup_remove_2 in ND. apply ND. apply in_app_iff. left. exact E. }
     assert (A : spec_accepts S0 s ds = true).
-    { unfold spec_accepts. rewrite Hv. apply set_good_parts in Hg as (_ & _ & _ & Hk). rewrite Hk. simpl.
+    { unfold spec_accepts. rewrite Hv, Hk. simpl.
       apply forallb_forall. intros [t dt] Ht. simpl. destruct (Nat.eqb t s) eqn:E; [reflexivity|]. simpl.
       apply Nat.eqb_neq in E. apply forallb_forall. intros p Hp. apply negb_true_iff.
       destruct (mem_pat p (pats dt)) eqn:M; [|reflexivity]. apply mem_pat_in in M. exfalso.
-      apply (s_disj _ HS s t ds dt p Hin); [apply in_app_iff; left; exact Ht | congruence | exact Hp | exact M]. }
+      apply (s_disj _ _ HS s t ds dt p Hin); [apply in_app_iff; left; exact Ht | congruence | exact Hp | exact M]. }
     rewrite A, Hn, Hg. simpl. rewrite (put_set_new S0 s ds Hn).
     specialize (IH (S0 ++ [(s, ds)])). rewrite <- app_assoc in IH. simpl in IH. apply IH. exact HS.
 Qed.
@@ -186,12 +191,12 @@ Lemma rel_at_q_one K1 K2 S q x : KInv K1 -> KInv K2 -> Rel K1 S -> Rel K2 S ->
   In x (at_q q (routes K1)) -> at_q q (routes K1) = at_q q (routes K2).
 Proof.
   intros I1 I2 R1 R2 Hx. apply in_at_q in Hx as [Hx Hq].
-  rewrite (at_q_one_source K1 q x (k_src _ I1) Hx Hq), (r_ord _ _ R1), <- (r_ord _ _ R2).
+  rewrite (at_q_one_source K1 q x (proj1 (k_uni _ _ I1)) Hx Hq), (r_ord _ _ R1), <- (r_ord _ _ R2).
   assert (Hy : In x (at_q q (routes (filter (from_src (rt_src x)) K2)))).
   { rewrite (r_ord _ _ R2), <- (r_ord _ _ R1). apply in_at_q. split; [|exact Hq].
     rewrite routes_filter. apply filter_In. split; [exact Hx|]. unfold from_src. apply Nat.eqb_refl. }
   apply in_at_q in Hy as [Hy _]. rewrite routes_filter in Hy. apply filter_In in Hy as [Hy _].
-  symmetry. apply (at_q_one_source K2 q x (k_src _ I2) Hy Hq).
+  symmetry. apply (at_q_one_source K2 q x (proj1 (k_uni _ _ I2)) Hy Hq).
 Qed.
 
 Lemma rel_at_q K1 K2 S q : KInv K1 -> KInv K2 -> Rel K1 S -> Rel K2 S ->
@@ -212,13 +217,13 @@ Theorem history_equals_fresh_ok ops : ok_from [] ops = true ->
   index (run ops) = index (fresh (current ops)).
 Proof.
   intro Hok.
-  destruct (run_sound ops empty [] Inv_empty Rel_empty SInv_empty Hok) as (I1 & R1 & S1).
+  destruct (run_sound ops empty [] (Inv_empty fx) Rel_empty (SInv_empty fx) Hok) as (I1 & R1 & S1).
   fold (run ops) in I1, R1. fold (current ops) in R1, S1.
   destruct (fresh_current (current ops) [] S1) as [Ec Hokf]. simpl in Ec.
-  destruct (run_sound (fresh_ops (current ops)) empty [] Inv_empty Rel_empty SInv_empty Hokf) as (I2 & R2 & _).
+  destruct (run_sound (fresh_ops (current ops)) empty [] (Inv_empty fx) Rel_empty (SInv_empty fx) Hokf) as (I2 & R2 & _).
   rewrite Ec in R2. fold (run (fresh_ops (current ops))) in I2, R2. fold (fresh (current ops)) in I2, R2.
-  apply (Repr_eq _ _ _ _ (i_v _ I1) (i_f _ I1) (i_v _ I2) (i_f _ I2)).
-  intro q. apply (rel_at_q _ _ (current ops) q (i_k _ I1) (i_k _ I2) R1 R2).
+  apply (Repr_eq _ _ _ _ (i_v _ _ I1) (i_f _ _ I1) (i_v _ _ I2) (i_f _ _ I2)).
+  intro q. apply (rel_at_q _ _ (current ops) q (i_k _ _ I1) (i_k _ _ I2) R1 R2).
 Qed.
 
 (** ** from the guards of the findings to [ok_from] *)
@@ -241,20 +246,20 @@ Qed.
 
 Lemma no_guard_set_good ops : no_guard ops = true -> set_guards_off ops.
 Proof.
-  unfold no_guard. rewrite negb_true_iff, !orb_false_iff.
-  intros [[[[[G1 G2] G3] G4] G5] G6] o Ho. unfold set_good.
+  unfold no_guard_fx. rewrite negb_true_iff, !orb_false_iff.
+  intros [[[[[G1 G2] G3] G4] G5] G6] o Ho. unfold SpecFacts.set_good.
   assert (X : forall (f : list rdef -> bool), existsb (fun o => f (op_set o)) ops = false -> f (op_set o) = false).
   { intros f H. destruct (f (op_set o)) eqn:E; [|reflexivity].
     assert (existsb (fun o => f (op_set o)) ops = true); [|congruence].
     apply existsb_exists. exists o. tauto. }
-  rewrite (X f2_set G2), (X f4_set G4), (X dupid_set G6). simpl.
-  apply (guard_F5_keys_ok ops G5 o Ho).
+  rewrite (X f2_set G2), (X dupid_set G6). simpl. rewrite andb_true_r.
+  destruct (fix_F4 fx); [reflexivity|]. simpl in *. rewrite (X f4_set G4). reflexivity.
 Qed.
 
 Lemma no_guard_ok ops : wf_history ops = true -> no_guard ops = true -> ok_from [] ops = true.
 Proof.
   intros W G. apply ok_from_guards; [apply no_guard_set_good; exact G | exact W |].
-  unfold no_guard in G. rewrite negb_true_iff, !orb_false_iff in G. unfold guard_F1 in G. tauto.
+  unfold no_guard_fx in G. rewrite negb_true_iff, !orb_false_iff in G. unfold guard_F1 in G. tauto.
 Qed.
 
 (** ** the property theorems *)
@@ -297,7 +302,7 @@ Theorem rejected_iff_cannot_apply ops o : wf_history (ops ++ [o]) = true -> no_g
     (res = None <-> spec_ok (current ops) o = true) /\ (res <> None -> st' = run ops).
 Proof.
   intros W G. destruct (ok_from_app ops o [] (no_guard_ok _ W G)) as [Hok Hs].
-  destruct (run_sound ops empty [] Inv_empty Rel_empty SInv_empty Hok) as (I1 & R1 & S1).
+  destruct (run_sound ops empty [] (Inv_empty fx) Rel_empty (SInv_empty fx) Hok) as (I1 & R1 & S1).
   destruct (step_sound _ _ o I1 R1 S1 Hs) as (st' & res & E & A & B & _).
   exists st', res. tauto.
 Qed.
@@ -362,12 +367,12 @@ Theorem found_is_current ops : wf_history ops = true -> no_guard ops = true ->
     In (r_def r) (get_set (current ops) (r_src r)).
 Proof.
   intros W G fa path m r H.
-  destruct (run_sound ops empty [] Inv_empty Rel_empty SInv_empty (no_guard_ok _ W G)) as (I1 & R1 & _).
+  destruct (run_sound ops empty [] (Inv_empty fx) Rel_empty (SInv_empty fx) (no_guard_ok _ W G)) as (I1 & R1 & _).
   fold (run ops) in I1, R1. fold (current ops) in R1.
   unfold find_rule in H. destruct (lookup fa (S (length path)) m (index (run ops)) path) as [v| |] eqn:E; try discriminate.
   inversion H; subst r. destruct (lookup_in _ _ _ _ _ _ E) as (q & n & Hin & Hv).
-  apply (in_get _ _ _ (rv_sorted _ _ (i_v _ I1))) in Hin.
-  destruct (ReprV_in _ _ _ _ _ (i_v _ I1) Hin Hv) as [Hr _].
+  apply (in_get _ _ _ (rv_sorted _ _ (i_v _ _ I1))) in Hin.
+  destruct (ReprV_in _ _ _ _ _ (i_v _ _ I1) Hin Hv) as [Hr _].
   apply (r_mem _ _ R1). apply in_routes_rule. exact Hr.
 Qed.
 
@@ -376,11 +381,11 @@ Theorem node_has_one_source ops : wf_history ops = true -> no_guard ops = true -
   forall q n x y, get (index (run ops)) q = Some n -> In x (vals n) -> In y (vals n) -> rt_src x = rt_src y.
 Proof.
   intros W G q n x y Hg Hx Hy.
-  destruct (run_sound ops empty [] Inv_empty Rel_empty SInv_empty (no_guard_ok _ W G)) as (I1 & _ & _).
+  destruct (run_sound ops empty [] (Inv_empty fx) Rel_empty (SInv_empty fx) (no_guard_ok _ W G)) as (I1 & _ & _).
   fold (run ops) in I1.
-  destruct (ReprV_in _ _ _ _ _ (i_v _ I1) Hg Hx) as [Hx1 Hx2].
-  destruct (ReprV_in _ _ _ _ _ (i_v _ I1) Hg Hy) as [Hy1 Hy2].
-  apply (k_src _ (i_k _ I1) x y q); assumption.
+  destruct (ReprV_in _ _ _ _ _ (i_v _ _ I1) Hg Hx) as [Hx1 Hx2].
+  destruct (ReprV_in _ _ _ _ _ (i_v _ _ I1) Hg Hy) as [Hy1 Hy2].
+  apply (proj1 (k_uni _ _ (i_k _ _ I1)) x y q); assumption.
 Qed.
 
 End Fx.
